@@ -86,6 +86,23 @@ CLAIMED["C16"] = dict(
     note="Trusted: the 300-line reference interpreter (Go regexp for patterns). Stated subset only: no --aho-corasick, --pattern / approx-pattern, taxonomy options, scripts, -p beyond comparisons of annotations.count; obiannotate is not combined with selection options (whether unselected records are dropped is not documented).",
 )
 
+# what the harness families gained after their first version (waves of seeded changes, DESIGN.md 13)
+ADDED = {
+    "C01": " Later additions: OBI-style (key=value;) and UTF-8 title lines; several input files, in order and with --no-order; several-member gzip; standard input as a redirected file and as a pipe, with a delimiter of a drawn record placed on the 4 KiB refill boundary of the C reader; buffers recycled by earlier users of the slice pool before the reader starts.",
+    "C03": " Later additions: PairedWith behind a multi-worker stage, CopyTee, LimitMemory (also under memory pressure), workers that fail on some records, one-reader multi-file order, peek + PushBack + Split consumers.",
+    "C04": " Later additions: the ...ToFile entry points on real files (new, left by a longer or shorter run, append mode); batches of 70-200 KB and of 8-11 MB; plans of 18-57 batches (thorough: more than 65536); CSV optional columns checked cell by cell; JSON objects and FASTA/FASTQ records read back by the harness' own parsers and compared with the records (qualities up to Q93, backslashes, percent signs, UTF-8).",
+    "C05": " Later additions: a library stage (one case in three) in which predicates built from the commands' constructors are applied by FilterOn with 2-6 workers to batches of 1-5 records and compared with a sequential instance; --force-one-cpu and stderr-as-terminal configurations; stale output files; obipcr templates with tandem sites and circular templates opened inside a priming site; obigrep --approx-pattern.",
+    "C06": " Later additions: more than 65536 distinct sequences in one chunk (one run per quick tier); numeric category values; CRC-32 twins; OBI-style input headers; crash and restart (one case in four is preceded by the same command killed at a drawn step in the same directory with the same process id).",
+    "C07": " Later additions: slice-valued and reader-style map annotations, feature tables, wrapped circular windows, empty sequences, second Recycle, the pattern complement table of obiapat, and the Lua binding through obiscript (one run in 40).",
+    "C13": " Later additions: the hard-wired batch size of the annotation stage as a knob (1-7), counts compared with the record's own status, --force-one-cpu, data sets that are not dereplicated (scalar sample attribute, words or numbers above 2^24).",
+    "C16": " Later additions: obigrep --approx-pattern (IUPAC codes, errors, indels, '#' positions, both strands) against a reference matcher, boolean expressions from a small grammar, taxonomic restrictions on a generated dump with merged ids, --id-list file variations; obidistribute --batches / --hash / -Z / -d / -A on existing files; paired runs with several write workers and stderr as a terminal.",
+    "C17": " Later additions: several-member gzip and gzip headers with name / comment fields; the damaged file among 2-3 intact ones; standard input as a pipe and with an explicit format; read(2) errors on standard input (directory, reset socket); CSV sequence files (also larger than the 1 MiB seen by the format guesser); obigrep / obiannotate besides obiconvert.",
+    "C18": " Later additions: real errno values from the failing endpoint (EPIPE, ENOSPC, EIO, EDQUOT, ECONNRESET, io.ErrClosedPipe, io.ErrShortWrite); a file size limit (RLIMIT_FSIZE) of k bytes on the real command with a control run, on -o, stdout, --save-discarded and every part file of obidistribute; seven commands on /dev/full.",
+}
+for _k, _v in ADDED.items():
+    CLAIMED[_k]["text"] += _v
+CLAIMED["C01"]["note"] = CLAIMED["C01"]["note"].replace("A pipe is not simulated (a C read(2) on a pipe is not durably blocked); the stdin transport, i.e. the C kseq reader, is reached by redirecting a regular file on fd 0 of the simulated obiconvert main", "The stdin transport, i.e. the C kseq reader, is reached by redirecting a regular file, or a pipe filled by the parent process, on fd 0 of the simulated obiconvert main")
+
 PENDING = {
 }
 
